@@ -130,12 +130,12 @@ var seqWraps = []seqWrap{
 }
 
 // seqMode: which encodings of an order family value are decoded. The header forms
-// are a matter of the grid; here they are crossed with the small lengths only.
+// are the matter of the grid; here they are crossed with the lengths up to 21 only.
 func seqMode(w seqWrap, n int) mode {
 	switch {
-	case w.forms && n <= 21:
+	case w.forms && n <= 21 && w.name == "alone":
 		return mode{full: true, sum: true}
-	case w.forms && n <= 111 && w.name == "alone":
+	case w.forms && n <= 21:
 		return mode{sum: true}
 	}
 	return mode{sum: true, canon: true}
